@@ -2,6 +2,7 @@
 import time
 
 from lib import vlib
+from props import scope_common as sc
 from props import scope_oracle as so
 from props import scope_progs as sp
 from translator import scope_sets
@@ -41,6 +42,12 @@ DOC = [
        [("setv", "f1", ("fn", [], [("ref", "r1", "x")])), ("call", ("sym", "f1"), []),
         ("setv", "x", ("lit", 2)), ("call", ("sym", "f1"), []), ("ref", "r2", "x")]),
       ("setv", "x", ("lit", 9)), ("call", ("sym", "f1"), []), ("ref", "r3", "x")]),
+    ("witness:setx of a let-bound name in a generator-function comprehension inside a function",
+     [("let", [("y", ("lit", 6))],
+       [("defn", "f1", [], [("setv", "res1", ("lfor", "lfor", [("for", "z", 2)],
+                                              ("do", [("setx", "y", ("lit", 7)), ("ref", "r1", "z")]))),
+                            ("ref", "r2", "y")]),
+        ("call", ("sym", "f1"), []), ("ref", "r3", "y")])]),
     ("witness:class attribute hides let binding",
      [("let", [("x", ("lit", 1))],
        [("class", "C1", [("x", 2)], [("defn", "m", ["self"], [("ref", "r1", "x")])]), ("callm", "C1", "m")])]),
@@ -58,12 +65,13 @@ def run(chk):
     so.register_matchers(chk, "C06")
     t0 = time.time()
     chk.prove("Props/C06.v", ["Props/C06.vo", "Gen/SetUses.vo"], [scope_sets.translate])
+    sc.coqchk(chk, "HyV.Props.C06")
     phases = chk.extra.setdefault("phase_seconds", {})
     phases["proof"] = round(time.time() - t0, 1)
     thorough = chk.tier == "thorough"
     labelled = list(DOC)
     g6 = sp.Gen(chk.rng, "c06")
-    for i in range(8000 if thorough else 800):
+    for i in range(25000 if thorough else 800):
         labelled.append(("c06:%d" % i, g6.program()))
     chk.rule = ("programs = the documentation's let examples + seeded random programs with up to 4 nested binding constructs "
                 "(let with 1-2 sequential bindings, defn, fn stored and called later, lfor with own variables and setx, "
@@ -72,10 +80,10 @@ def run(chk):
                 "correspondence, refinement instance; (b) executed and compared with the lexical reference interpreter "
                 "(log, exception kind, module globals). non-trivial = distinct program containing a let")
     t1 = time.time()
-    so.correspondence(chk, labelled, limit=(3000 if thorough else 300))
+    so.correspondence(chk, labelled, limit=(6000 if thorough else 300))
     phases["machine trace correspondence"] = round(time.time() - t1, 1)
     t2 = time.time()
-    so.walk_and_lex(chk, labelled, limit=(3000 if thorough else 300))
+    so.walk_and_lex(chk, labelled, limit=(6000 if thorough else 300))
     phases["walk correspondence + refinement instances"] = round(time.time() - t2, 1)
     t3 = time.time()
     so.oracle(chk, "C06", labelled, need=("let",))
